@@ -1,0 +1,295 @@
+//! Verification hook H1 (only compiled with `--cfg kolibrie_verif`).
+//!
+//! A cooperative "baton" scheduler for the threads of a multi-threaded RSP engine. While a
+//! session is active, exactly one registered thread runs at a time; at every scheduling point
+//! (channel send, before a blocking receive, after a window processor ran, thread start/end) the
+//! running thread asks the scheduler who runs next. The decision replays a prefix of choices
+//! supplied by the harness and then always takes choice 0 (keep running if still enabled, else the
+//! lowest thread id), so that a harness can enumerate schedules exhaustively up to a preemption
+//! bound. A receive on an empty channel is modelled as *blocked*, so "no enabled thread" is
+//! reported as a deadlock instead of hanging. With no active session every function is a no-op.
+//!
+//! Limitation (documented in /verif/DESIGN.md): one pending-item counter models the one
+//! window -> worker channel of a single-window engine.
+use std::cell::Cell;
+use std::sync::{Condvar, Mutex};
+use std::time::Duration;
+
+#[derive(Clone, Copy, Debug, PartialEq, Eq)]
+enum Status {
+    Runnable,
+    BlockedRecv,
+    WaitQuiescent,
+    Finished,
+}
+
+#[derive(Clone, Debug)]
+pub struct Point {
+    /// number of enabled threads at this point (choices are 0..enabled)
+    pub enabled: usize,
+    /// the thread that was running is among the enabled ones (choice 0 = it keeps running)
+    pub running_still_enabled: bool,
+    pub chosen: usize,
+}
+
+#[derive(Clone, Debug, Default)]
+pub struct Trace {
+    pub points: Vec<Point>,
+    pub choices: Vec<usize>,
+    pub error: Option<String>,
+}
+
+struct State {
+    generation: u64,
+    active: bool,
+    prefix: Vec<usize>,
+    threads: Vec<Status>,
+    running: usize,
+    pending: usize,
+    trace: Trace,
+}
+
+static STATE: Mutex<Option<State>> = Mutex::new(None);
+static CV: Condvar = Condvar::new();
+
+thread_local! {
+    /// (session generation, thread id): threads that outlive their session must not touch a later one
+    static ME: Cell<Option<(u64, usize)>> = const { Cell::new(None) };
+}
+
+static GENERATION: std::sync::atomic::AtomicU64 = std::sync::atomic::AtomicU64::new(0);
+
+fn generation() -> u64 {
+    GENERATION.load(std::sync::atomic::Ordering::SeqCst)
+}
+
+const STUCK: Duration = Duration::from_secs(20);
+
+fn enabled_list(st: &State) -> Vec<usize> {
+    let is_enabled = |i: usize| match st.threads[i] {
+        Status::Runnable => true,
+        Status::BlockedRecv => st.pending > 0,
+        Status::WaitQuiescent | Status::Finished => false,
+    };
+    let mut v = Vec::new();
+    if is_enabled(st.running) {
+        v.push(st.running);
+    }
+    for i in 0..st.threads.len() {
+        if i != st.running && is_enabled(i) {
+            v.push(i);
+        }
+    }
+    if v.is_empty() {
+        // a thread waiting for quiescence runs only when nobody else can
+        for i in 0..st.threads.len() {
+            if st.threads[i] == Status::WaitQuiescent {
+                v.push(i);
+            }
+        }
+    }
+    v
+}
+
+/// Decide who runs next. Must be called with the state locked, by the running thread.
+fn decide(st: &mut State) {
+    let enabled = enabled_list(st);
+    if enabled.is_empty() {
+        if st.threads.iter().any(|s| *s != Status::Finished) {
+            st.trace.error = Some("deadlock: no enabled thread".to_string());
+        }
+        st.active = false;
+        return;
+    }
+    let step = st.trace.choices.len();
+    let choice = if step < st.prefix.len() { st.prefix[step] } else { 0 };
+    if choice >= enabled.len() {
+        st.trace.error = Some(format!(
+            "schedule prefix diverged: choice {} at step {} but only {} enabled",
+            choice,
+            step,
+            enabled.len()
+        ));
+        st.active = false;
+        return;
+    }
+    st.trace.points.push(Point {
+        enabled: enabled.len(),
+        running_still_enabled: enabled[0] == st.running,
+        chosen: choice,
+    });
+    st.trace.choices.push(choice);
+    st.running = enabled[choice];
+}
+
+/// Block the calling thread until it holds the baton (or the session is over).
+fn wait_turn(me: usize, mut guard: std::sync::MutexGuard<'static, Option<State>>) {
+    // a thread that outlives its session must not wait on (or time out) a later one
+    let my_generation = match guard.as_ref() {
+        Some(st) => st.generation,
+        None => return,
+    };
+    loop {
+        match guard.as_mut() {
+            Some(st) if st.generation == my_generation && st.active && st.running != me => {
+                let (g, timeout) = CV.wait_timeout(guard, STUCK).unwrap();
+                guard = g;
+                if timeout.timed_out() {
+                    if let Some(st) = guard.as_mut() {
+                        if st.generation == my_generation && st.active && st.running != me {
+                            st.trace.error =
+                                Some("scheduler stuck: a thread did not reach its next point".into());
+                            st.active = false;
+                            CV.notify_all();
+                        }
+                    }
+                }
+            }
+            _ => return,
+        }
+    }
+}
+
+fn with_me<R>(f: impl FnOnce(usize, std::sync::MutexGuard<'static, Option<State>>) -> R) -> Option<R> {
+    let (gen, me) = ME.with(|m| m.get())?;
+    let guard = STATE.lock().unwrap();
+    match guard.as_ref() {
+        // checked under the lock: a thread of an earlier session must never touch this one
+        Some(st) if st.active && st.generation == gen && me < st.threads.len() => Some(f(me, guard)),
+        _ => None,
+    }
+}
+
+/// Start a controlled session; the calling thread becomes thread 0 and holds the baton.
+pub fn session_begin(prefix: &[usize]) {
+    let mut guard = STATE.lock().unwrap();
+    let gen = GENERATION.fetch_add(1, std::sync::atomic::Ordering::SeqCst) + 1;
+    *guard = Some(State {
+        generation: gen,
+        active: true,
+        prefix: prefix.to_vec(),
+        threads: vec![Status::Runnable],
+        running: 0,
+        pending: 0,
+        trace: Trace::default(),
+    });
+    ME.with(|m| m.set(Some((gen, 0))));
+}
+
+/// End the session: every blocked thread is released and runs free from here on.
+pub fn session_end() -> Trace {
+    let mut guard = STATE.lock().unwrap();
+    ME.with(|m| m.set(None));
+    let trace = match guard.as_mut() {
+        Some(st) => {
+            st.active = false;
+            st.trace.clone()
+        }
+        None => Trace::default(),
+    };
+    CV.notify_all();
+    trace
+}
+
+/// Called by the spawning thread right before `thread::spawn`.
+pub fn pre_spawn() -> Option<(u64, usize)> {
+    with_me(|_, mut guard| {
+        let st = guard.as_mut().unwrap();
+        st.threads.push(Status::Runnable);
+        (generation(), st.threads.len() - 1)
+    })
+}
+
+/// First statement of a spawned thread.
+pub fn thread_begin(token: Option<(u64, usize)>) {
+    if let Some((gen, id)) = token {
+        ME.with(|m| m.set(Some((gen, id))));
+        let guard = STATE.lock().unwrap();
+        if guard.as_ref().map_or(true, |st| st.generation != gen) {
+            return;
+        }
+        wait_turn(id, guard);
+    }
+}
+
+/// Last statement of a spawned thread.
+pub fn thread_end() {
+    with_me(|me, mut guard| {
+        let st = guard.as_mut().unwrap();
+        st.threads[me] = Status::Finished;
+        decide(st);
+        CV.notify_all();
+    });
+    ME.with(|m| m.set(None));
+}
+
+/// A plain scheduling point.
+pub fn point() {
+    with_me(|me, mut guard| {
+        let st = guard.as_mut().unwrap();
+        if st.running != me {
+            return;
+        }
+        decide(st);
+        CV.notify_all();
+        wait_turn(me, guard);
+    });
+}
+
+/// After a successful channel send.
+pub fn note_send() {
+    with_me(|me, mut guard| {
+        let st = guard.as_mut().unwrap();
+        st.pending += 1;
+        if st.running != me {
+            return;
+        }
+        decide(st);
+        CV.notify_all();
+        wait_turn(me, guard);
+    });
+}
+
+/// Before a blocking receive: the thread is enabled only while an item is pending.
+pub fn before_recv() {
+    with_me(|me, mut guard| {
+        let st = guard.as_mut().unwrap();
+        let my_generation = st.generation;
+        st.threads[me] = Status::BlockedRecv;
+        decide(st);
+        CV.notify_all();
+        wait_turn(me, guard);
+        let mut guard = STATE.lock().unwrap();
+        if let Some(st) = guard.as_mut() {
+            if st.active && st.generation == my_generation {
+                st.threads[me] = Status::Runnable;
+            }
+        }
+    });
+}
+
+/// After a receive returned an item.
+pub fn after_recv() {
+    with_me(|_, mut guard| {
+        let st = guard.as_mut().unwrap();
+        st.pending = st.pending.saturating_sub(1);
+    });
+}
+
+/// The controlling thread waits until every other thread is blocked on an empty channel or done.
+pub fn wait_quiescent() {
+    with_me(|me, mut guard| {
+        let st = guard.as_mut().unwrap();
+        let my_generation = st.generation;
+        st.threads[me] = Status::WaitQuiescent;
+        decide(st);
+        CV.notify_all();
+        wait_turn(me, guard);
+        let mut guard = STATE.lock().unwrap();
+        if let Some(st) = guard.as_mut() {
+            if st.active && st.generation == my_generation {
+                st.threads[me] = Status::Runnable;
+            }
+        }
+    });
+}
